@@ -613,6 +613,18 @@ pub async fn run_async(plan: &PlanA, opts: &ExecOpts) -> RunResult {
             *res.faults.entry("disk_error".into()).or_insert(0) += 1;
         }
 
+        /* "the lease recorded for it": when the server rewrites the record of a holder (a
+         * renewal by the same client identity, possibly one whose reply could not be framed),
+         * the current record is what counts */
+        if after.is_some() {
+            for (a, h) in holders.iter_mut() {
+                if let Some(row) = after_rows.get(&a.to_string()) {
+                    if row.clientid.as_deref() == Some(&h.client[..]) && row.expiry != h.expiry {
+                        h.expiry = row.expiry;
+                    }
+                }
+            }
+        }
         for s in &sent {
             let lan = &plan.lans[s.spec.lan];
             let client = &plan.clients[s.spec.client];
